@@ -561,15 +561,16 @@ func (se *SessionExecutor) recycleBackendConn(pc backend.PooledConnect) {
 		return
 	}
 
+	// if continueConn set to pc,maybe moreRowsExist or moreResultsExist: the reply is still being streamed and
+	// recycleContinueConn gives the connection back afterwards (also when it is flagged closed)
+	if se.session.continueConn == pc && (pc.MoreRowsExist() || pc.MoreResultsExist()) {
+		return
+	}
+
 	if pc.IsClosed() {
 		se.recycleTx(pc)
 		se.forgetKsConn(pc)
 		pc.Recycle()
-		return
-	}
-
-	// if continueConn set to pc,maybe moreRowsExist or moreResultsExist
-	if se.session.continueConn != nil && (pc.MoreRowsExist() || pc.MoreResultsExist()) {
 		return
 	}
 
